@@ -1,0 +1,7 @@
+//go:build !verif
+
+package peering
+
+// verifGate is a verification hook; it does nothing unless built with the
+// "verif" build tag.
+func verifGate(*LinkBase, string) {}
